@@ -221,7 +221,8 @@ OutcomeXS(c, xs, tmc) == FirstBad([i \in 1..Len(XSNeeds(xs)) |-> OutcomeTMC(With
 \* kinematic domain (ESF.__init__): 0 < x <= 1, Q2 > 0, x >= smallest grid node; classes of requests
 XClasses == {"in", "zero", "negative", "above1", "belowgrid", "one"}
 Q2Classes == {"pos", "zero", "negative"}
-KinOutcome(xc, qc) == IF xc \in {"in", "one"} /\ qc = "pos" THEN "OK" ELSE "Reject:kinematics"
+\* ("tiny": the first node of a grid reaching 1e-7 at a high virtuality - inside the domain)
+KinOutcome(xc, qc) == IF xc \in {"in", "one", "tiny"} /\ qc = "pos" THEN "OK" ELSE "Reject:kinematics"
 
 \* registry completeness: every class the assembly of ANY cell names is in the class table (so no kernel the runner can
 \* use escapes the per-kernel checks C03 / C18 / C01), or is a named empty / missing class
